@@ -157,17 +157,34 @@ def build(e, style=0):  # noqa: C901, PLR0911
     if k == "xor":
         return lsc(e[1]) ^ lsc(e[2])
     if k == "chain":
-        pat = P
-        for el in e[1]:
-            if el[0] == "atom":
-                pred = ATOM_BY_NAME[el[1]]
-                pat = getattr(pat, pred) if isinstance(pred, str) and pred.isidentifier() and style % 2 else pat[pred]
-            elif el[0] == "tuple":
-                pat = pat[tuple(ATOM_BY_NAME[n] for n in el[1])]
-            elif el[0] == "garg":
-                pat = pat.generic_arg(el[1], ATOM_BY_NAME[el[2]])
-            else:
-                pat = pat[create_loc_stack_checker(build(el, style))]
+        def extend(pat, els):
+            for el in els:
+                if el[0] == "atom":
+                    pred = ATOM_BY_NAME[el[1]]
+                    pat = getattr(pat, pred) if isinstance(pred, str) and pred.isidentifier() and style % 2 else pat[pred]
+                elif el[0] == "tuple":
+                    pat = pat[tuple(ATOM_BY_NAME[n] for n in el[1])]
+                elif el[0] == "garg":
+                    pat = pat.generic_arg(el[1], ATOM_BY_NAME[el[2]])
+                else:
+                    pat = pat[create_loc_stack_checker(build(el, style))]
+            return pat
+        els = e[1]
+        how = (style // 2) % 4
+        if how == 0 or len(els) < 2:
+            return extend(P, els)
+        # concatenation with `+`: every split point and both groupings denote the same chain
+        cut = 1 + (style // 8) % (len(els) - 1)
+        if how == 1:
+            return extend(P, els[:cut]) + extend(P, els[cut:])
+        if how == 2:   # right-nested: a + (b + (c + ...))
+            pat = extend(P, els[-1:])
+            for el in reversed(els[:-1]):
+                pat = extend(P, [el]) + pat
+            return pat
+        pat = extend(P, els[:1])   # left-nested: ((a + b) + c) + ...
+        for el in els[1:]:
+            pat = pat + extend(P, [el])
         return pat
     raise AssertionError(e)
 
@@ -254,14 +271,24 @@ def compare(ctx, e, stks, style, what):
         return
     bad = 0
     nontriv = e[0] != "atom"
+    first_answers = []
     for st in stks:
         got = checker.check_loc_stack(None, LocStack(*st))
+        if len(first_answers) < 60:
+            first_answers.append(got)
         exp = ev(e, st)
         if got != exp:
             bad += 1
             if bad <= 2:
                 ctx.violation(f"{what}:{_shape(e)}", f"{show(e)} on {_show_stack(st)}: adaptix {got}, documented semantics {exp}",
                               {"expr": show(e), "stack": _show_stack(st), "adaptix": got, "reference": exp, "style": style})
+    # a predicate is a function of the stack alone: asking again, after every other stack has been asked, gives the same answers
+    again = [checker.check_loc_stack(None, LocStack(*st)) for st in stks[:len(first_answers)]]
+    ctx.count("re_evaluations", len(again))
+    if again != first_answers:
+        i = next(i for i, (x, y) in enumerate(zip(first_answers, again)) if x != y)
+        ctx.violation(f"predicate-answer-depends-on-history:{_shape(e)}", f"{show(e)} on {_show_stack(stks[i])}: first {first_answers[i]}, asked again {again[i]}",
+                      {"expr": show(e), "stack": _show_stack(stks[i]), "style": style})
     ctx.count("evaluations", len(stks))
     ctx.count("expressions")
     if nontriv or any(len(s) > 1 for s in stks[:1]):
@@ -422,7 +449,78 @@ def integration(ctx):
                 ctx.violation(f"integration-checker-vs-stack:{name}", f"{name} on documented stack of {site}: checker {not ref(st)}, expected {ref(st)}", {"pred": name, "site": site})
 
 
-DIRECTED = {"integration-markers": integration}
+def facades(ctx):  # noqa: C901
+    """Facade functions that take several predicates (bound_by_any): the binding is the OR of the predicates, for every stack,
+    however often and in whatever order it is asked; on real retorts every named class is affected."""
+    import enum  # noqa: PLC0415
+
+    from adaptix import dumper as dumper_, enum_by_exact_value, enum_by_name, flag_by_exact_value, flag_by_member_names  # noqa: PLC0415
+    from adaptix._internal.provider.facade.provider import bound_by_any  # noqa: PLC0415
+    from adaptix._internal.provider.loc_stack_filtering import AnyLocStackChecker  # noqa: F401, PLC0415
+
+    rng = ctx.rng("facades")
+    locs = all_locs()
+    stks = stacks(locs, rng, 300, 100)
+    names = [n for n, _ in ATOMS]
+    for size in (2, 3, 4):
+        for _ in range(12):
+            chosen = rng.sample(names, size)
+            prov = bound_by_any([ATOM_BY_NAME[n] for n in chosen], dumper_(int, lambda x: x))
+            checker = getattr(prov, "_loc_stack_checker", None)
+            ctx.evaluated(("bound_by_any", tuple(chosen)))
+            ctx.count("facade_bindings")
+            if checker is None:
+                ctx.count("facade_checker_not_reachable")
+                continue
+            order = list(stks)
+            answers = {}
+            for rnd in range(3):
+                rng.shuffle(order)
+                for st in order:
+                    got = checker.check_loc_stack(None, LocStack(*st))
+                    exp = any(atom_ref(n, st[-1]) for n in chosen)
+                    ctx.count("evaluations")
+                    if got != exp:
+                        ctx.violation("checker-differs:bound_by_any" if rnd == 0 and st not in answers else "predicate-answer-depends-on-history:bound_by_any",
+                                      f"bound_by_any({chosen}) on {_show_stack(st)} (pass {rnd}): adaptix {got}, OR of the predicates {exp}", {"preds": chosen, "pass": rnd})
+                        break
+                    answers[st] = got
+                else:
+                    continue
+                break
+
+    class Color(enum.Enum):
+        RED = 1
+
+    class Shape(enum.Enum):
+        BOX = 10
+
+    class Perm(enum.Flag):
+        R = 1
+        W = 2
+
+    class Mode(enum.Flag):
+        X = 1
+        Y = 2
+    cases = [
+        ("enum_by_name(Color, Shape)", [enum_by_name(Color, Shape)], [(Color, Color.RED, "RED"), (Shape, Shape.BOX, "BOX")]),
+        ("enum_by_exact_value after enum_by_name", [enum_by_exact_value(Color, Shape), enum_by_name(Color, Shape)], [(Color, Color.RED, 1), (Shape, Shape.BOX, 10)]),
+        ("flag_by_member_names(Perm, Mode)", [flag_by_member_names(Perm, Mode)], [(Perm, Perm.R | Perm.W, ["R", "W"]), (Mode, Mode.Y, ["Y"])]),
+        ("flag_by_exact_value after names", [flag_by_exact_value(Perm, Mode), flag_by_member_names(Perm, Mode)], [(Perm, Perm.R, 1), (Mode, Mode.Y, 2)]),
+    ]
+    for name, recipe, expect in cases:
+        r = Retort(recipe=recipe)
+        # first a request that matches NONE of the predicates, then each class in both orders
+        attempt(r.dump, 1, int)
+        for tp, value, outer in expect + list(reversed(expect)):
+            d, l = attempt(r.dump, value, tp), attempt(r.load, outer, tp)
+            ctx.evaluated(("facade-integration", name, tp.__name__))
+            ctx.count("facade_integration")
+            if d.kind != "ok" or d.value != outer or l.kind != "ok" or l.value != value:
+                ctx.violation("facade-binding-ignored:multi-predicate", f"{name}: dump({value!r}) = {d!r}, load({outer!r}) = {l!r}; expected {outer!r} / {value!r}", {"facade": name, "class": tp.__name__})
+
+
+DIRECTED = {"integration-markers": integration, "multi-predicate-facades": facades}
 
 
 def run_case(ctx, rng, idx):
